@@ -137,6 +137,13 @@ def sync (cfg : Cfg) (s : State) : Arg → State × Out
     else if (r.1.tokens t).isSome then (record cfg r.1 r.2, .ok r.2 (changesOf r.2 t))
     else (r.1, .refused)
 
+/-- a sync without token during which the write of the new token's file fails (ENOSPC, EIO …): the history has been
+    advanced; `_atomic_write` leaves nothing behind, the clean-up after a successful write is not reached, the request
+    ends with an error.  When the token's file exists already nothing is written and the request succeeds as usual -/
+def syncFault (cfg : Cfg) (s : State) : State :=
+  let r := survey cfg s
+  if (r.1.tokens r.2).isNone then r.1 else (sync cfg s .none).1
+
 inductive Op
   | put (h e : Nat)                       -- upload (also: item moved in from another collection)
   | del (h : Nat)                         -- delete (also: item moved out to another collection)
